@@ -70,7 +70,7 @@ D = {
   nontriv='lambda evs: sum(1 for e in evs if e["ev"] == "cb") >= 2',
   rule="setcallback placed before / between / after in-flight items and the peer's close (the schedule decides where relative to the receiver thread), endings by close, error, end of body and gateway exit, with and without endmarker, callback channels whose object was dropped, two callback channels at once",
   ntext="non-trivial = the callback was invoked at least twice",
-  known='(lambda r, vd: "dropped-callback-channel-no-close" if vd == "C10.dropped-callback-channel-never-closed-by-the-peer" else None)'),
+  known="None"),
 "c18": dict(post='ctx.coverage["chanlife_replay"] = life', extra='life = gc.chanlife_part(ctx, ["C18.", "C10.", "C03.", "C02."], 4 if ctx.quick else 6)',title="C18 -- channel ids never collide and channels travel over channels intact",
   cfgs='[("MCChanIds", "CI"), "GW_data"] if ctx.quick else [("MCChanIds", "CI"), ("MCChanIds", "CI_big"), "GW_data", "GW_data_big"]', mutants='[("MCChanIds", "CI_nolock")]',
   fam="c18_programs(rng, 8 if ctx.quick else 60)", own='["C18.", "C02.", "C10.dropped-callback"]',
@@ -78,7 +78,7 @@ D = {
   nontriv='lambda evs: sum(1 for e in evs if e["ev"] == "ret" and e["op"] in ("newchannel", "remote_exec")) >= 3',
   rule="concurrent newchannel/remote_exec calls from several threads on both sides; channels created on either side passed over channels (plain and nested in containers) and used; open/transfer/close/drop cycles with the channel table size compared before and after",
   ntext="non-trivial = at least three channels were created",
-  known='(lambda r, vd: "dropped-callback-channel-no-close" if vd == "C10.dropped-callback-channel-never-closed-by-the-peer" else None)'),
+  known="None"),
 }
 for name, d in D.items():
     open(f"/verif/drivers/{name}.py", "w").write(T.format(num=int(name[1:]), **d))
